@@ -1,6 +1,6 @@
 """Library-level properties decided by the in-process harness `vh`:
 C01, C05, C16, C17, C18, C19, C20 (CLI stages are driven by vh as well)."""
-from common import Result, build, finish, run_vh, run_vh_miri, seed
+from common import VARIANT, Result, asan_stage, build, finish, run_vh, run_vh_miri, seed
 
 
 def dseed():
@@ -68,14 +68,17 @@ def c01(tier):
     build("vh", "vh-debug", "cli")
     r = Result("C01", "exploration", "one evaluation = one (basis, source, block size) case through Signature::generate / sync trait / async engine, both delta engines and both patch engines (4 combinations) with a recording basis reader, or one CLI chain (signature|delta|patch through files + `copia sync` with DST absent/identical/basis); distinct non-trivial = distinct (block size, edit script shape, basis size class) whose delta has >= 1 copy AND >= 1 literal op")
     th = tier == "thorough"
-    r.merge_vh(run_vh("c01", tier, stage="lib", cases=300000 if th else 20000), "release-lib:")
+    if not VARIANT:
+        r.merge_vh(run_vh("c01", tier, stage="lib", cases=300000 if th else 20000), "release-lib:")
+        r.merge_vh(run_vh("c01", tier, stage="lib", profile="debug", cases=30000 if th else 3000, sd=dseed()), "debug-lib:")
     r.merge_vh(run_vh("c01", tier, stage="cli", cases=3000 if th else 200), "cli:")
-    r.merge_vh(run_vh("c01", tier, stage="lib", profile="debug", cases=30000 if th else 3000, sd=dseed()), "debug-lib:")
     r.assumptions = ASSUME_LIB + ["sizes stop at 2 MiB; u32 copy-length saturation (4 GiB) is out of reach"]
     if tier == "thorough":
         miri_stage(r, "c01", "C01")
     if tier == "thorough":
         valgrind_stage(r, "c01", 24)
+    if tier == "thorough":
+        asan_stage(r, "C01")
     finish(r, tier)
 
 
@@ -83,14 +86,17 @@ def c05(tier):
     build("vh", "vh-debug", "cli")
     r = Result("C05", "fault_enumeration", "one evaluation = one faulted (basis', delta') pair (1-3 faults from a 22-entry catalogue, or every single-field fault of a <= 6-op delta) through both patch engines with a recording reader under catch_unwind, or one `copia patch` run on the serialised pair; verdict: Ok => BLAKE3(output) == delta'.checksum and output == literals ++ basis' ranges; panic/signal => violation; distinct non-trivial = distinct (fault class, outcome) pairs")
     th = tier == "thorough"
-    r.merge_vh(run_vh("c05", tier, stage="lib", cases=3000000 if th else 300000), "release-lib:")
-    r.merge_vh(run_vh("c05", tier, stage="lib", profile="debug", cases=500000 if th else 60000, sd=dseed()), "debug-lib:")
+    if not VARIANT:
+        r.merge_vh(run_vh("c05", tier, stage="lib", cases=3000000 if th else 300000), "release-lib:")
+        r.merge_vh(run_vh("c05", tier, stage="lib", profile="debug", cases=500000 if th else 60000, sd=dseed()), "debug-lib:")
     r.merge_vh(run_vh("c05", tier, stage="cli", cases=5000 if th else 600), "cli:")
     r.assumptions = ASSUME_LIB + ["no address-space limit is imposed here (see C20)"]
     if tier == "thorough":
         miri_stage(r, "c05", "C05")
     if tier == "thorough":
         valgrind_stage(r, "c05", 200)
+    if tier == "thorough":
+        asan_stage(r, "C05")
     finish(r, tier)
 
 
@@ -121,12 +127,15 @@ def c20(tier):
     build("vh", "vh-debug", "cli")
     r = Result("C20", "exploration", "one evaluation = one value round trip (Message/Codec via 1-7 byte reads/FrameHeader/bincode files), one decode call on arbitrary or mutated bytes inside an allocation-counting scope + catch_unwind (verdict: no panic, no single request > 16 MiB + 4 KiB, header accepted <=> magic & version & type & length predicate), or one `copia delta|patch` run on a hostile file under RLIMIT_AS = 2 GiB and a 60 s watchdog; distinct non-trivial = distinct (decoder or message kind, mutation class or corrupted field, outcome)")
     th = tier == "thorough"
-    r.merge_vh(run_vh("c20", tier, stage="lib", cases=60000 if th else 5000), "release-lib:")
-    r.merge_vh(run_vh("c20", tier, stage="lib", profile="debug", cases=10000 if th else 1000, sd=dseed()), "debug-lib:")
+    if not VARIANT:
+        r.merge_vh(run_vh("c20", tier, stage="lib", cases=60000 if th else 5000), "release-lib:")
+        r.merge_vh(run_vh("c20", tier, stage="lib", profile="debug", cases=10000 if th else 1000, sd=dseed()), "debug-lib:")
     r.merge_vh(run_vh("c20", tier, stage="cli"), "cli:")
     r.assumptions = ASSUME_LIB + ["RLIMIT_AS = 2 GiB is far above what a valid run on these inputs needs; watchdog expiry is inconclusive, never a violation"]
     if tier == "thorough":
         miri_stage(r, "c20", "C20")
     if tier == "thorough":
         valgrind_stage(r, "c20", 4)
+    if tier == "thorough":
+        asan_stage(r, "C20")
     finish(r, tier)
